@@ -386,6 +386,12 @@ impl Context<'_> {
         if !functional {
             return Ok(vec![]);
         }
+        // The slot is named by this Proposition's subject. A caller whose
+        // mask hides it does not get rivals looked up by it.
+        let masked_reader = self.authority.carries_field_mask();
+        if !self.tuple_members_seen(target, masked_reader).subject {
+            return Ok(vec![]);
+        }
         let mut rivals = self
             .slot_propositions(&row.subject_key, &row.predicate_ref)
             .await?;
@@ -399,27 +405,34 @@ impl Context<'_> {
         subject_key: &str,
         predicate_ref: &str,
     ) -> Result<Vec<ElementId>, KipError> {
+        // A slot is selected by subject, which a field mask can hide like any
+        // other member of a Proposition: a masked reader gets no index
+        // push-down for it, as in `match_tuple` (§109).
+        let masked_reader = self.authority.carries_field_mask();
+        let mut filters = vec![
+            Box::new(crate::store::eq_field(
+                "space",
+                anda_db_schema::Fv::Text(self.space.clone()),
+            )),
+            Box::new(crate::store::eq_field(
+                "state",
+                anda_db_schema::Fv::Text("active".to_string()),
+            )),
+            Box::new(crate::store::eq_field(
+                "predicate_ref",
+                anda_db_schema::Fv::Text(predicate_ref.to_string()),
+            )),
+        ];
+        if !masked_reader {
+            filters.push(Box::new(crate::store::eq_field(
+                "subject_key",
+                anda_db_schema::Fv::Text(subject_key.to_string()),
+            )));
+        }
         let ids = self
             .candidates(
                 anda_kip::ElementKind::Proposition,
-                Some(anda_db::query::Filter::And(vec![
-                    Box::new(crate::store::eq_field(
-                        "space",
-                        anda_db_schema::Fv::Text(self.space.clone()),
-                    )),
-                    Box::new(crate::store::eq_field(
-                        "state",
-                        anda_db_schema::Fv::Text("active".to_string()),
-                    )),
-                    Box::new(crate::store::eq_field(
-                        "subject_key",
-                        anda_db_schema::Fv::Text(subject_key.to_string()),
-                    )),
-                    Box::new(crate::store::eq_field(
-                        "predicate_ref",
-                        anda_db_schema::Fv::Text(predicate_ref.to_string()),
-                    )),
-                ])),
+                Some(anda_db::query::Filter::And(filters)),
             )
             .await?;
         self.charge(ids.len())?;
@@ -436,7 +449,9 @@ impl Context<'_> {
                 && row.subject_key == subject_key
                 && row.predicate_ref == predicate_ref
             {
-                slot.push(id);
+                if self.tuple_members_seen(id, masked_reader).subject {
+                    slot.push(id);
+                }
             }
         }
         Ok(slot)
